@@ -35,13 +35,17 @@ SnapFirst(h, n) ==            \* numpy argmin: first index of the minimum
     ELSE LET a == (h - 1) \div 2
          IN  IF a < 1 THEN 1 ELSE IF a + 1 > n THEN n ELSE a
 
-(* sub-curve = positions L .. U (inclusive) *)
+(* sub-curve = positions L .. U (inclusive).  A plateau <<a, b>> is a maximal run
+   of equal values lying strictly inside the sub-curve (L < a, b < U) whose two
+   outer neighbours are lower. *)
+RECURSIVE RunEnd(_, _, _)
+RunEnd(c, a, U) == IF a < U /\ c[a + 1] = c[a] THEN RunEnd(c, a + 1, U) ELSE a
+
 Plateaus(c, L, U) ==
-    { <<a, b>> \in (L+1..U-1) \X (L+1..U-1) :
-         /\ a <= b
-         /\ \A k \in a..b : c[k] = c[a]
-         /\ c[a-1] < c[a]
-         /\ c[b+1] < c[b] }
+    { <<a, RunEnd(c, a, U)>> :
+        a \in { x \in (L+1)..(U-1) :
+                  /\ c[x-1] < c[x]
+                  /\ LET b == RunEnd(c, x, U) IN b < U /\ c[b+1] < c[b] } }
 
 CandAny(c, L, U) == UNION { p[1]..p[2] : p \in Plateaus(c, L, U) }
 CandMid(c, L, U) == { (p[1] + p[2]) \div 2 : p \in Plateaus(c, L, U) }
@@ -57,6 +61,23 @@ UpperSet(hi, n) == IF hi = NoEnd THEN {n}
 P_Allowed(c, lo, hi) ==
     LET n == Len(c)
     IN  UNION { Best(c, CandAny(c, L, U)) : L \in LowerSet(lo, n), U \in UpperSet(hi, n) }
+
+(* Derived curves (mean curves) are computed in floating point: values that are
+   exactly equal in rational arithmetic may come out either way round.  The
+   property-level relation for such curves therefore admits every answer that
+   some arbitrarily small perturbation of the tied values produces:
+     * a point may be reported iff it is a non-strict local maximum strictly
+       inside the sub-curve and at least as high as every certain peak;
+     * "none" may be reported iff there is no certain peak (plateau with
+       strictly lower outer neighbours).                                     *)
+PossiblePk(c, L, U) == { p \in (L+1)..(U-1) : c[p-1] <= c[p] /\ c[p+1] <= c[p] }
+PT_LU(c, L, U) ==
+    LET sure == Plateaus(c, L, U)
+    IN  (IF sure = {} THEN {0} ELSE {})
+        \cup { p \in PossiblePk(c, L, U) : \A q \in sure : c[q[1]] <= c[p] }
+PT_Allowed(c, lo, hi) ==
+    LET n == Len(c)
+    IN  UNION { PT_LU(c, L, U) : L \in LowerSet(lo, n), U \in UpperSet(hi, n) }
 
 I_Lower(lo, n) == IF lo = NoEnd THEN 1 ELSE SnapFirst(lo, n)
 I_Upper(hi, n) == IF hi = NoEnd THEN n ELSE SnapFirst(hi, n) - 1
